@@ -340,7 +340,7 @@ func main() {
 	}
 	r.Rule("random worlds: 3..10 stores (state up/offline/tombstone; last heartbeat fresh/disconnected/down/never; clearly roomy, clearly low on space, or inside the small-store exemption; labels zone/rack/host, specialUse, engine, $x, a missing location label; busy, snapshot / pending-peer load, exhausted add-peer limit; optionally one fresh empty store), max-replicas 1..5, location labels a subsequence of zone/rack/host, isolation level, strictly-match-label, the five replica switches, low-space-ratio 0.7/0.8/0.9, replica-schedule-limit 64/0, placement rules off / default / 1..3 custom rules (role, count, label constraints in/notIn/exists/notExists incl. exclusive keys, location labels, isolation level), builder mode joint/demote/legacy. Each world is a HISTORY on one long-lived ReplicaChecker / RuleChecker / CheckerController: 4 rounds x 4 random regions (1..max+2 peers, learners, leader, down / pending peers; after a rule update half of them with 1..2 peers), and between rounds one update: a placement rule rewritten under the same group/id (SetRule, DeleteRule+SetRule, SetRules, DeleteRule; constraints tightened / relaxed / other key, count, role, location labels), a store changing zone/host/special labels, state, heartbeat or space, or the settings changing (max-replicas, location labels, isolation level, switches). All oracles use the rules / stores / settings current at the time of the check; violation keys carry :after-rule-update / :after-store-update / :after-config-update (sequential) or :during-*-update (overlapping). Plus the concurrent family (see assumptions). evaluations = checker calls (Check and CheckRegion per case); distinct = checker x entry point x proposed operator (description + step kinds, or nil) x peers-vs-max-replicas relation x classes of stores outside the region")
 	r.Assume("pkg/mock/mockcluster is the cluster (real PersistOptions, real RuleManager, real filters and operator builder); lib/sim replays operator steps like a store would; placement.FitRegion (judged by C12) gives the per-rule peers, orphans and satisfaction used by the rule-checker oracles")
-	r.Assume("store predicates are three-valued and recomputed from StoreInfo fields: heartbeat two days ahead = connected, ten minutes or more behind the process start = disconnected; available >= threshold+15 points = roomy, <= threshold/2 and outside the <30 regions & >8GiB exemption = low; anything else, upper-case / empty / missing location labels, exclusive labels with placement rules off are skipped_ambiguous")
+	r.Assume("store predicates are three-valued and recomputed from StoreInfo fields: heartbeat two days ahead = connected, ten minutes or more behind the process start = disconnected; available >= threshold+15 points = roomy, <= threshold/2 and outside the <30 regions & >8GiB exemption = low; anything else is skipped_ambiguous. Labels: KEYS are case-insensitive (Zone = zone, first label wins; a quarter of the worlds spell store keys and / or the configured location labels, rule location labels and constraint keys in other cases), an empty value = not set; location VALUES that differ only in case (z1 / Z1), a store missing a location label down to the isolation level, and exclusive labels with placement rules off are skipped_ambiguous; the isolation domain of a store is computed by the harness from the raw label list, never through pd's filters")
 	r.Assume("rule checker: the rule an added peer is meant for is the rule of the peer the operator removes, else any rule with fewer peers than its count; the add is accepted if the target satisfies the label constraints and isolation level of one of them. Busy / snapshot / pending-peer / store-limit load of a target is counted, not judged (not in the statement)")
 	r.Assume("histories: regions have unique ids, are put into the cluster, are revisited in later rounds as they are then (half of the proposed operators are executed on the simulator: new epoch), the checker's waiting list is drained like the patrol loop does (ids looked up again in the cluster); ~6% of the calls run with the id allocator failing (a nil result of such a call is not judged, later calls are), 2% of the regions have no leader; 1% of the worlds are large (30..258 stores, up to 16 zones / 120 hosts with prefix-related names, 20..1100 extra rules on key ranges around the checked regions, 100+ regions)")
 	r.Assume("concurrent family: one goroutine makes the checker calls (pd has one patrol goroutine; checker calls are never overlapped with each other), another applies and reverts ONE update (rule rewritten under the same id incl. get-edit-set, store labels/state/heartbeat/space through get-clone-put, replication settings) until the calls are done; a call is judged in the view before, after, or - when it overlaps (lib/hist logical clock) - in both, and only findings present in both views are reported (keys :during-<class>-update); data races are attributed by the driver (check.json mechanism)")
